@@ -40,9 +40,9 @@ shrink = bc.shrink_hist
 def generate(rng, tier):
     k = 1 if tier == "quick" else 12
     return bc.mk_cases(rng, [
-        ("life", 500 * k, bc.gen_lifecycle),
-        ("order", 120 * k, bc.gen_order),
-        ("follow", 60 * k, bc.gen_followup),
+        ("life", 1500 * k, bc.gen_lifecycle),
+        ("order", 300 * k, bc.gen_order),
+        ("follow", 200 * k, bc.gen_followup),
         ("long", 6 * k, bc.gen_long),
         ("case", 30 * k, lambda r, i: bc.gen_special(r, i, "case")),
         ("ptrvar", 10 * k, lambda r, i: bc.gen_special(r, i, "ptr-variant")),
